@@ -3,6 +3,7 @@
 -/
 import BS.Proofs.SpecDecode
 import BS.Proofs.SpecFile
+import BS.Proofs.AnyLayout
 
 namespace BS.Props.C07
 open BS BS.Impl
@@ -54,5 +55,44 @@ theorem whole_file_decodes (p : Nat) (hp : p ≤ u64Max) (user : Bytes) (xs : Li
     (hH : (Spec.innerHeader p user).length ≤ 65535) :
     Spec.refDecodeFile (Spec.dataFile p user xs) = some (user, p, xs) :=
   Spec.refDecodeFile_dataFile p hp user xs hv hH
+
+/-! ### reverse direction beyond what the library itself writes
+
+`Spec.encodeW p fx` is ANY layout the documentation allows for the history `fx.map (·.2)`: a
+full-timestamp section in front of the first line and of every line whose distance to the last
+full timestamp does not fit 16 bits (it must), and in front of any other line the writer liked
+(flag `true` — an earlier release, another implementation, a writer that starts a section per
+session).  The canonical writer is the all-`false` case (`any_layout_generalises_canonical`). -/
+
+theorem any_layout_generalises_canonical (p : Nat) (xs : List Entry) :
+    Spec.encodeW p (xs.map fun e => (false, e)) = Spec.encode p xs :=
+  encFromW_canonical p xs none
+
+/-- (←) **The library's reader reads every conformant layout, canonical or not**: over the whole
+data region it feeds the processor exactly the entries, whatever the processor, payload size,
+callback setting, and wherever the optional sections sit (also at the end of a 16 KiB read
+buffer: the reader's chunking is part of the model). -/
+theorem reader_reads_any_layout {σ : Type} (p : Nat) (cb : Option Bool) (proc : σ → Nat → Bytes → PRes σ) (ps : σ)
+    (b : Bool) (e : Entry) (es : List (Bool × Entry)) (hv : Valid p (e :: es.map (·.2))) :
+    readRegion p cb proc ps (Spec.encodeW p ((b, e) :: es)) (metaSize p) (Spec.encodeW p ((b, e) :: es)).length e.ts
+      = foldProc proc ps (e :: es.map (·.2)) :=
+  readRegion_anyLayout p cb proc ps b e es hv
+
+/-- (←) **The index the library rebuilds for a foreign file lists exactly that file's sections**
+(full timestamp and byte offset of each), optional ones included — what `builder.open` does with
+a v1 file that arrives without its sidecar index. -/
+theorem index_rebuilt_for_any_layout (p : Nat) (fx : List (Bool × Entry)) (hv : Valid p (fx.map (·.2))) :
+    extractEntries p (Spec.encodeW p fx) = toIEntries (Spec.sectionsW p fx) :=
+  extractEntries_anyLayout p fx hv
+
+/-- the independent reference decoder agrees: every conformant layout decodes to its history
+(this is the oracle the differential check uses for planted foreign files) -/
+theorem reference_decoder_reads_any_layout (p : Nat) (fx : List (Bool × Entry)) (hv : Valid p (fx.map (·.2))) :
+    Spec.refDecode p (Spec.encodeW p fx) = some (fx.map (·.2)) :=
+  refDecode_encodeW p fx hv
+
+/-- a layout that is conformant but not canonical: a section in front of the second line
+although its delta would fit -/
+example : Spec.encodeW 0 [(false, ⟨5, []⟩), (true, ⟨6, []⟩)] ≠ Spec.encode 0 [⟨5, []⟩, ⟨6, []⟩] := by decide
 
 end BS.Props.C07
